@@ -136,7 +136,16 @@ def run_step(fs, proc, step, hist):
                 files = [step["in"]] if inp in fs.files else walk_order(fs, step["in"])
             rec["order"] = list(files)
             single = inp in fs.files
-            for rel in files:
+            between = list(step.get("between") or [])
+            for nfile, rel in enumerate(files):
+                # library use: requests on the live anonymizers between two files
+                for b in [b for b in between if b["before"] == nfile]:
+                    try:
+                        an = fa.anonymizer6 if b.get("v6") else fa.anonymizer4
+                        if an is not None:
+                            proc.ipa.anonymize_ip_addr(an, b["line"], b["undo"])
+                    except Exception as e:
+                        rec.setdefault("between_errors", []).append(type(e).__name__)
                 src = fs.abs(rel)
                 dst = out if single else fs.abs(mirror(step["in"], step["out"], rel))
                 fs._mk_all(posixpath.dirname(dst))       # caller-side mkdir, not part of the traced run
